@@ -1,19 +1,19 @@
 #!/bin/bash
 # usage: tools/mutcheck.sh <patch.diff> <tier> <prop> [<prop>...]
-# applies the patch to a scratch worktree of /repo (never to /repo itself), runs the checks against it, undoes it.
+# applies the patch to a private scratch worktree of /repo HEAD (never to /repo itself), runs the checks against it
+# through VF_REPO, removes the worktree.  Safe to run concurrently.
 patch=$(readlink -f "$1"); tier=$2; shift 2
 cd "$(dirname "$0")/.."
-W=/tmp/mut/eval
-if [ ! -d $W ]; then git -C /repo worktree add -q --detach $W HEAD; fi
-git -C $W checkout -q --detach $(git -C /repo rev-parse HEAD) 2>/dev/null
-git -C $W checkout -q -- . ; git -C $W clean -fdq
+mkdir -p /tmp/mut
+W=$(mktemp -d /tmp/mut/eval.XXXXXX); rmdir $W
+git -C /repo worktree add -q --detach $W HEAD || exit 3
+trap 'git -C /repo worktree remove --force $W >/dev/null 2>&1; rm -rf $W.out' EXIT
 if ! git -C $W apply "$patch"; then echo "PATCH-DOES-NOT-APPLY $patch"; exit 3; fi
-export VF_REPO=$W VF_EVIDENCE_DIR=/tmp/mut/evidence VF_REPLAY_DIR=/tmp/mut/replays
+export VF_REPO=$W VF_EVIDENCE_DIR=$W.out/evidence VF_REPLAY_DIR=/tmp/mut/replays
 rcall=0
 for p in "$@"; do
   out=$(./check $p --tier $tier 2>&1); rc=$?
   echo "$p rc=$rc $(echo "$out" | grep -E "^VIOLATION|^HELD|^INCONCLUSIVE" | head -2 | cut -c1-260)"
   [ $rc -eq 1 ] && rcall=1
 done
-git -C $W checkout -q -- . ; git -C $W clean -fdq
 exit $rcall
